@@ -8,7 +8,8 @@ import props
 CLAIMS = {
     'C01': ('RF8 folder/interpreter signature agreement, RF7h pattern coverage, RF9 x86 pattern width/signedness/condition codes and '
             'integer memory classes, RF9m ModRM/SIB decision table, RF18 flag-producer preservation, RF7i replacement-language reader '
-            'agreement, RF33 indirect-jump CFG edges, RF34 narrowing in store-to-load forwarding, RF23/25/26 folding tables',
+            'agreement, RF33 indirect-jump CFG edges, RF34 narrowing in store-to-load forwarding, RF23/25/26/38/41 folding tables, RF32 side-effect '
+            'opcode protection, RF36 liveness-scan agreement, RF39/RF40 address-scale and flag discipline, RF43 spill-slot reuse',
             'Decides named structural clauses that are necessary conditions of generator/interpreter equivalence: the GVN constant '
             'folder applies per opcode the same C operator on the same operand width/signedness as the interpreter; every opcode that '
             'reaches instruction selection has a pattern; x86 encodings carry the width, signedness and condition code the opcode name '
@@ -24,7 +25,7 @@ CLAIMS = {
     'C03': ('machine-code template discipline of the wrapper / basic-block wrapper / thunks (RF11), thunk redirection through the '
             'code-write protocol (RF4d), label-operand position agreement between duplicator, simplifier and interpreter (RF7g), '
             'interface switch protocol: single writer of the public address and thunk redirection on every setter path (RF31), '
-            'indirect-jump CFG edges (RF33)',
+            'indirect-jump CFG edges (RF33), origin of addresses stored into lref data (RF42)',
             'Decides narrow structural necessary conditions of interface independence: the glue that switches a function from stub to '
             'generated code preserves every argument register and the stack, both thunk patterns have one size so retargeting never '
             'overwrites a neighbour, redirection writes go through the protected code-write path, label targets are rewired at the '
@@ -51,7 +52,7 @@ CLAIMS = {
             'Decides table/constant agreement with the psABI, template symmetry, and that no pass can create a second return that the '
             'single epilogue would miss; does not decide register allocation.', '3 C06'),
     'C10': ('tagged-union discipline in the text writer (RF6), writer/scanner vocabulary agreement (RF7c), scanner input function '
-            '(RF22), label-table scope (RF15)',
+            '(RF22, RF22b), label-table scope (RF15), FP print precision (RF37)',
             'Decides that the textual writer reads only the active union member on every path and terminates each item kind, and that '
             'every keyword, type name, data element type the writer can print is accepted by the scanner. Numeric round trip of values '
             'is not decided.', '3 C10'),
@@ -76,7 +77,8 @@ CLAIMS = {
             'decision table (RF19), register look-up rule (RF16h)',
             'Decides the static table that the run-time validator consults, row by row against the documented grammar, and that error '
             'branches call the error function with a specific code.', '3 C15'),
-    'C16': ('duplicate/restore protocol on every generation path (RF16a/b/i), label forwarding-pointer scrub (RF16j), label-operand '
+    'C16': ('duplicate/restore protocol on every generation path (RF16a/b/i), scratch use of insn data scrubbed (RF16j), no instruction write '
+            'before the working copy exists (RF16k), label-operand '
             'positions (RF7g)',
             'Decides the must-pass-through protocol of generate_func_code, sibling agreement of saved/restored fields, and that every '
             'forwarding pointer parked in the original labels while instructions are copied is reset on every path.', '3 C16'),
@@ -89,7 +91,8 @@ CLAIMS = {
     'C18': ('process-wide mutable state (RF5) and non-reentrant libc who-may-call',
             'Decides the property\'s second sentence: no variable with static storage in any library unit is written or escapes into a '
             'pointer through which its type is written. Schedules are not explored.', '3 C18'),
-    'C20': ('opcode template signature agreement (RF8), opcode coverage (RF7h), operand union discipline (RF6)',
+    'C20': ('opcode template signature agreement under every operand kind (RF8), opcode coverage (RF7h), operand union discipline (RF6), '
+            'register typing (RF21), FP constant precision (RF37)',
             'Decides that each opcode\'s C template uses the operator/width/signedness the interpreter uses, that every public opcode has '
             'a case, and that out_op reads the union member matching the operand mode.', '3 C20'),
 }
